@@ -7,18 +7,22 @@ import vlib
 SCHEMES = ["alpine", "cargo", "deb", "gem", "generic", "golang", "maven", "npm", "nuget", "pypi", "rpm"]
 ECO_OF = {"deb": "debian", "generic": "semver"}
 
-def model(run, K, schemes=SCHEMES, name=None, timeout=1500):
-    cfg = vlib.cfg_consts(K=K, Schemes=set(schemes)) + \
+def model(run, K, schemes=SCHEMES, name=None, timeout=1500, chain=1):
+    cfg = vlib.cfg_consts(K=K, Schemes=set(schemes), ChainNo=chain) + \
         "INIT VInit\nNEXT VNext\nINVARIANT SweepIsDen\nINVARIANT SingleIsComparator\nINVARIANT Emit\nCHECK_DEADLOCK FALSE\n"
-    lines, st, dt = vlib.tlc(run, "MC_Vers", cfg, name=name or ("vers.K%d" % K), workers=8, timeout=timeout, heap="8g")
+    lines, st, dt = vlib.tlc(run, "MC_Vers", cfg, name=name or ("vers.K%d.c%d" % (K, chain)), workers=8, timeout=timeout, heap="8g")
     return vlib.tagged(lines, "VEC")
 
-def chains(run):
+def chains(run, chain=1):
     """read the chains out of Vers.tla by asking TLC to print them (single source of truth)"""
-    mod = "---- MODULE MC_Chains ----\nEXTENDS Vers, Json\nASSUME PrintT(<<\"VEC\", ToJson([s \\in AllSchemes |-> Chain(s)])>>)\n====\n"
-    cfg = vlib.cfg_consts(K=1, Schemes={"npm"}) + "INIT VInit\nNEXT VNext\nCHECK_DEADLOCK FALSE\n"
-    lines, st, dt = vlib.tlc(run, "MC_Chains", cfg, workers=1, timeout=300, extra_files={"MC_Chains.tla": mod}, count=False)
+    mod = "---- MODULE MC_Chains ----\nEXTENDS Vers, Json\nASSUME PrintT(<<\"VEC\", ToJson([s \\in AllSchemes |-> TheChain(s)])>>)\nASSUME PrintT(<<\"PREPOS\", ToJson([p |-> PypiPrePos2])>>)\n====\n"
+    cfg = vlib.cfg_consts(K=1, Schemes={"npm"}, ChainNo=chain) + "INIT VInit\nNEXT VNext\nCHECK_DEADLOCK FALSE\n"
+    lines, st, dt = vlib.tlc(run, "MC_Chains", cfg, name="chains%d" % chain, workers=1, timeout=300, extra_files={"MC_Chains.tla": mod}, count=False)
+    global PYPI_PREPOS2
+    PYPI_PREPOS2 = vlib.tagged(lines, "PREPOS")[0]["p"]
     return vlib.tagged(lines, "VEC")[0]
+
+PYPI_PREPOS2 = []
 
 def check_chains(run, exe, ch):
     jobs = [{"k": "matrix", "eco": ECO_OF.get(s, s), "tag": s, "texts": ch[s], "part": []} for s in SCHEMES]
